@@ -45,6 +45,8 @@ fn proper_ok(name: &str) -> bool {
 }
 
 struct Run {
+    /// the last handshake read ended this many bytes into a trailing message
+    partial_cut: Option<usize>,
     result: Option<Result<Connection, String>>,
     written: Vec<u8>,
     wire: Wire,
@@ -69,11 +71,28 @@ fn run_client(rng: &mut Rng, can_fd: bool, reply_bytes: &[u8], trailing: Vec<(Ve
     let merge_all = rng.chance(1, 3);
     let merge_first = rng.bool();
     let mut fd_seen = false;
+    let mut partial_done = false;
+    let mut partial_cut: Option<usize> = None;
     for (k, (bytes, fds)) in trailing.into_iter().enumerate() {
         let mut w = wire.lock();
         if (k == 0 && merge_first) || (merge_all && !fd_seen) {
             fd_seen = fd_seen || !fds.is_empty();
-            if let Some(last) = w.staged.back_mut() {
+            let partial = !partial_done && bytes.len() > 2 && rng.chance(2, 5);
+            if let Some(last) = w.staged.back_mut().filter(|l| l.fds.is_empty() || fds.is_empty()) {
+                if !fds.is_empty() {
+                    last.fd_offset = last.bytes.len();
+                }
+                if partial {
+                    // the read that carries the last handshake line ends INSIDE this message (often inside its fixed
+                    // 16-byte header); its fds arrive with its first byte
+                    let cut = if rng.bool() { 1 + rng.usize_below(17.min(bytes.len() - 1)) } else { 1 + rng.usize_below(bytes.len() - 1) };
+                    last.bytes.extend_from_slice(&bytes[..cut]);
+                    last.fds.extend(fds);
+                    w.staged.push_back(Chunk { bytes: bytes[cut..].to_vec(), fds: vec![], fd_offset: 0 });
+                    partial_done = true;
+                    partial_cut = Some(cut);
+                    continue;
+                }
                 last.bytes.extend_from_slice(&bytes);
                 last.fds.extend(fds);
                 continue;
@@ -82,10 +101,10 @@ fn run_client(rng: &mut Rng, can_fd: bool, reply_bytes: &[u8], trailing: Vec<(Ve
         // split some messages in two
         if bytes.len() > 20 && rng.bool() {
             let cut = 1 + rng.usize_below(bytes.len() - 1);
-            w.staged.push_back(Chunk { bytes: bytes[..cut].to_vec(), fds });
-            w.staged.push_back(Chunk { bytes: bytes[cut..].to_vec(), fds: vec![] });
+            w.staged.push_back(Chunk { bytes: bytes[..cut].to_vec(), fds, fd_offset: 0 });
+            w.staged.push_back(Chunk { bytes: bytes[cut..].to_vec(), fds: vec![], fd_offset: 0 });
         } else {
-            w.staged.push_back(Chunk { bytes, fds });
+            w.staged.push_back(Chunk { bytes, fds, fd_offset: 0 });
         }
     }
     wire.lock().eof_at_end = eof;
@@ -152,7 +171,7 @@ fn run_client(rng: &mut Rng, can_fd: bool, reply_bytes: &[u8], trailing: Vec<(Ve
     }
     let fp = sched.fingerprint();
     drop(sched);
-    (Run { result, written: wire.all_written(), wire, sched_fp: fp }, got, end, cap)
+    (Run { partial_cut, result, written: wire.all_written(), wire, sched_fp: fp }, got, end, cap)
 }
 
 pub fn run(ctx: &mut Ctx) {
@@ -222,6 +241,12 @@ pub fn run(ctx: &mut Ctx) {
                         ctx.count("evaluations", 1);
                         let (run, got, end, cap) = run_client(&mut rng, can_fd, &reply_bytes, trailing, &chunks, true, true);
                         ctx.distinct(run.sched_fp ^ fnv(&names.join(",")) ^ can_fd as u64);
+                        if let Some(cut) = run.partial_cut {
+                            ctx.count("class:leftover-ends-inside-a-message", 1);
+                            if cut < 16 {
+                                ctx.count("class:leftover-ends-inside-fixed-header", 1);
+                            }
+                        }
                         let ok = matches!(run.result, Some(Ok(_)));
                         ctx.count(if ok { "class:lib-success" } else { "class:lib-failure" }, 1);
                         ctx.count(if proper { "class:proper-server" } else { "class:improper-server" }, 1);
@@ -306,6 +331,12 @@ pub fn run(ctx: &mut Ctx) {
             ctx.count("leftover_messages_sent", sent_msgs.len() as u64);
             let (run, got, end, cap) = run_client(&mut rng, can_fd, &reply_bytes, trailing, &chunks, true, true);
             ctx.distinct(run.sched_fp ^ fnv(&fdpat));
+            if let Some(cut) = run.partial_cut {
+                ctx.count("class:leftover-ends-inside-a-message", 1);
+                if cut < 16 {
+                    ctx.count("class:leftover-ends-inside-fixed-header", 1);
+                }
+            }
             let desc = json!({"can_fd": can_fd, "agreed": agree, "fd_pattern": fdpat, "chunks": chunks,
                 "library": match &run.result { Some(Ok(_)) => "connected".to_string(), Some(Err(e)) => format!("error: {e}"), None => "pending".into() },
                 "trailing_sent": sent_msgs.len(), "trailing_received": got.len(), "stream_end": end, "fd_capability": cap,
